@@ -48,4 +48,6 @@ MUTANTS = [
                             start_pos, new_end_pos,
                         )""")]},
     {"id": "c04-n-rename", "expect": "silent", "edits": [(L, "cur_span_start_pos", "span_opened_at", 3)]},
+    {"id": "c04-orig-text-cuts-callers-list", "expect": "fire", "edits": [(L, "            assert end_c <= len(lines[end_l])\n            result_lines.append(lines[end_l][:end_c])", "            assert end_c <= len(lines[end_l])\n            lines[end_l] = lines[end_l][:end_c]\n            result_lines.append(lines[end_l])")]},
+    {"id": "c04-n-orig-text-copies-list", "expect": "silent", "edits": [(L, "            # the text is already a list of strings\n            lines = text", "            # the text is already a list of strings\n            lines = list(text)")]},
 ]
